@@ -101,6 +101,7 @@ Theorem C08_refusal_size_update : forall s name rowid cols vals off t sch ls pg 
   find (fun lc => N.eqb (lc_key (snd lc)) rowid && negb (lc_deleted (snd lc)))
        (flat_map (fun l => map (fun c => (t_off l, c)) (leaf_cells l)) ls) = Some (pg, c) ->
   decode_tuple sch (lc_val c) [] = Ok m ->
+  cols_err (map fd_name sch) cols [] = None ->     (* the SET list names columns of the table, each once *)
   encode_tuple sch (zip_set cols vals m) = Ok bs ->
   (MV < length bs)%nat ->
   st_update s name rowid cols vals = (s, Err ERowTooLarge).
